@@ -350,6 +350,6 @@ def run_shard(ctx):
                                 nshards=ctx.nshards, deadline_s=dl(0.7))
     stats.extra["exhaustive_graphs"] = stats.evaluations
     stats.extra["exhaustive_complete"] = bool(complete)
-    core.hyp_search(strategy(thorough), ex, stats, max_examples=300 if thorough else 70, seed=core.hash64(ctx.seed, ID, ctx.shard),
+    core.hyp_search(strategy(thorough), ex, stats, max_examples=2000 if thorough else 70, seed=core.hash64(ctx.seed, ID, ctx.shard),
                     findings=ctx.findings, deadline_s=dl(1.0))
     return stats
